@@ -22,7 +22,9 @@ Issuers == {"sp1", "sp2", "unknown", "sp1-slash", "sp1-case"}
 Known(i) == i \in {"sp1", "sp2"}
 \* the entity ids of the providers are URNs, or URLs (what most federations use)
 IdStyles == {"urn", "url"}
-Urls == {"absent", "url1", "url2", "url3", "urlB", "url1-case", "url1-slash", "url1-query", "url1-port", "url1-prefix", "url1-parent", "url1-pct", "unregistered"}
+Urls == {"absent", "url1", "url2", "url3", "urlB", "url1-case", "url1-slash", "url1-query", "url1-port", "url1-prefix", "url1-parent", "url1-pct",
+         \* url1 under another scheme, without a scheme
+         "url1-http", "url1-noscheme", "unregistered"}
 Indexes == {"absent", "1", "2", "9"}
 PBind == {"absent", Post, Redirect, Artifact, "PAOS", "bogus"}
 \* the server is long-lived: prev is the authentication request it answered just before (none, sp1 naming url1, sp2 naming
